@@ -10,6 +10,7 @@
 //!       off for the requested feature set dropped
 //!   A1  print / log macro statements dropped
 //!   A2  visibility widened to `pub`
+//!   A3  crate-internal paths (`crate::a::b::Item`) shortened to the item; `use` statements inside bodies dropped
 //!   R1  `X.iter()…any/all/count/collect/find/position/for_each` iterator chains -> explicit loops
 //!   R4  `for (i, x) in X.iter().enumerate()` -> counted `for` with an index variable
 //!   R5  `A.extend(b)` (b a Vec variable) -> `A.append(&mut b')`
@@ -19,6 +20,7 @@
 //!   R13 `for x in &mut V` -> counted while loop over `&mut V[i]`
 //!   R15 `for x in V.into_iter().rev()` -> `let mut t = V; while t.len() > 0 { let x = t.pop().unwrap(); .. }`
 //!   R16 `for x in SET` (named local HashSet of Copy elements, listed per function) -> `for r in SET.iter() { let x = *r; .. }`
+//!   R17 a `for` over a range / `&V` / `V.iter()` whose body uses `continue` -> counted `while` (Verus: no continue in for-loops)
 //!   R11 reference patterns in `for` / closure parameters / `Some(&x)` -> bind + deref
 //!   RS  pinned statement replacement   (request: replace_stmt)
 //!   RE  pinned expression replacement  (request: replace_expr)
@@ -85,6 +87,9 @@ struct ItemReq {
     /// force `&self` -> `&mut self` (callers of lock-elided writers)
     #[serde(default)]
     mutself: bool,
+    /// R7b: parameters `name: &T` whose T has interior mutability through locks -> `name: &mut T`
+    #[serde(default)]
+    mutparam: Vec<String>,
     /// R16: names of local HashSet<Copy> values iterated by value (`for x in NAME`)
     #[serde(default)]
     setiter: Vec<String>,
@@ -448,6 +453,10 @@ impl<'a> VisitMut for Rw<'a> {
                     self.fail(m);
                 }
             }
+            if let Stmt::Item(Item::Use(_)) = &s {
+                self.bump("A0.use");
+                continue;
+            }
             if let Stmt::Macro(m) = &s {
                 if is_print_macro(&m.mac) {
                     self.bump("A1.print");
@@ -572,6 +581,64 @@ impl<'a> VisitMut for Rw<'a> {
         }
         // children first (inner chains inside closures get lowered first)
         visit_mut::visit_expr_mut(self, e);
+        if self.enabled("R17") {
+            // Verus: "for-loops do not yet support continue" -> counted while loop (index advanced BEFORE the body)
+            let mut repl: Option<Expr> = None;
+            if let Expr::ForLoop(f) = e {
+                let mut hc = HasContinue { found: false };
+                syn::visit::Visit::visit_block(&mut hc, &f.body);
+                if hc.found && f.label.is_none() {
+                    let pat = &f.pat;
+                    let stmts = &f.body.stmts;
+                    match &*f.expr {
+                        Expr::Range(r) if matches!(r.limits, RangeLimits::HalfOpen(_)) && r.start.is_some() && r.end.is_some() => {
+                            let i = self.fresh("i");
+                            let hi = self.fresh("hi");
+                            let a = r.start.as_ref().unwrap();
+                            let b = r.end.as_ref().unwrap();
+                            repl = Some(parse_quote!({
+                                let mut #i = #a;
+                                let #hi = #b;
+                                while #i < #hi {
+                                    let #pat = #i;
+                                    #i += 1;
+                                    #(#stmts)*
+                                }
+                            }));
+                        }
+                        Expr::Reference(rf) if rf.mutability.is_none() => {
+                            let i = self.fresh("i");
+                            let v = &rf.expr;
+                            repl = Some(parse_quote!({
+                                let mut #i: usize = 0;
+                                while #i < #v.len() {
+                                    let #pat = &#v[#i];
+                                    #i += 1;
+                                    #(#stmts)*
+                                }
+                            }));
+                        }
+                        Expr::MethodCall(mc) if mc.method == "iter" && mc.args.is_empty() => {
+                            let i = self.fresh("i");
+                            let v = &mc.receiver;
+                            repl = Some(parse_quote!({
+                                let mut #i: usize = 0;
+                                while #i < #v.len() {
+                                    let #pat = &#v[#i];
+                                    #i += 1;
+                                    #(#stmts)*
+                                }
+                            }));
+                        }
+                        _ => {}
+                    }
+                }
+            }
+            if let Some(r) = repl {
+                *e = r;
+                self.bump("R17.for_continue");
+            }
+        }
         if self.enabled("R8") {
             // format!(..) -> an opaque String (the text of messages is outside every contract)
             if let Expr::Macro(m) = e {
@@ -789,6 +856,62 @@ fn expr_attrs(e: &Expr) -> &[Attribute] {
     }
 }
 
+
+
+/// A3: `crate::a::b::Item[::Variant]` / `super::..` -> `Item[::Variant]` (a unit is one flat namespace).
+/// Module segments are recognised by the Rust naming convention (lower-case initial).
+fn shorten_path(p: &mut Path) -> bool {
+    let first = match p.segments.first() {
+        Some(s) => s.ident.to_string(),
+        None => return false,
+    };
+    if !(first == "crate" || first == "super" || (first == "self" && p.segments.len() > 1)) {
+        return false;
+    }
+    let segs: Vec<PathSegment> = p.segments.iter().cloned().collect();
+    let mut start = 1;
+    while start < segs.len() - 1 {
+        let n = segs[start].ident.to_string();
+        if n == "super" || n.chars().next().map(|c| c.is_lowercase()).unwrap_or(false) {
+            start += 1;
+        } else {
+            break;
+        }
+    }
+    let mut np = punctuated::Punctuated::new();
+    for s in &segs[start..] {
+        np.push(s.clone());
+    }
+    p.segments = np;
+    p.leading_colon = None;
+    true
+}
+struct PathShort {
+    n: u32,
+}
+impl VisitMut for PathShort {
+    fn visit_path_mut(&mut self, p: &mut Path) {
+        if shorten_path(p) {
+            self.n += 1;
+        }
+        visit_mut::visit_path_mut(self, p);
+    }
+}
+
+
+/// does this loop body contain a `continue` that belongs to it (not to a nested loop / closure)?
+struct HasContinue {
+    found: bool,
+}
+impl<'ast> syn::visit::Visit<'ast> for HasContinue {
+    fn visit_expr(&mut self, e: &'ast Expr) {
+        match e {
+            Expr::Continue(c) if c.label.is_none() => self.found = true,
+            Expr::ForLoop(_) | Expr::While(_) | Expr::Loop(_) | Expr::Closure(_) => {}
+            _ => syn::visit::visit_expr(self, e),
+        }
+    }
+}
 
 // ---------------------------------------------------------------------------------------------
 // R7: lock elision (a lock is modelled as exclusive access; see DESIGN §2.2)
@@ -1154,6 +1277,8 @@ fn do_type(items: &[Item], name: &str, feats: &[String]) -> std::result::Result<
                 widen_fields(&mut s2.fields, feats)?;
                 let mut lt = LockTypes { n: 0 };
                 lt.visit_fields_mut(&mut s2.fields);
+                let mut ps = PathShort { n: 0 };
+                ps.visit_fields_mut(&mut s2.fields);
                 let mut rewrites = BTreeMap::new();
                 if lt.n > 0 {
                     rewrites.insert("R7.lock_type".to_string(), lt.n);
@@ -1186,6 +1311,8 @@ fn do_type(items: &[Item], name: &str, feats: &[String]) -> std::result::Result<
                     }
                 }
                 e2.variants = keep;
+                let mut ps = PathShort { n: 0 };
+                ps.visit_item_enum_mut(&mut e2);
                 return Ok(ItemResp { ok: true, kind: "type".into(), path: name.into(), text: e2.to_token_stream().to_string(), derives, orig_norm: tnorm(e), ..Default::default() });
             }
             Item::Type(t) if t.ident == name => {
@@ -1269,6 +1396,12 @@ fn do_fn(items: &[Item], req: &ItemReq, feats: &[String]) -> std::result::Result
         return Err(e);
     }
 
+    let mut ps = PathShort { n: 0 };
+    ps.visit_block_mut(&mut block);
+    ps.visit_signature_mut(&mut sig);
+    if ps.n > 0 {
+        rw.counts.insert("A3.crate_paths".to_string(), ps.n);
+    }
     let mut mk = Marker { do_loops: true, next_loop: 0, kinds: vec![], anchors: vec![], found: BTreeMap::new() };
     mk.visit_block_mut(&mut block);
     let mut missing = Vec::new();
@@ -1295,6 +1428,20 @@ fn do_fn(items: &[Item], req: &ItemReq, feats: &[String]) -> std::result::Result
     }
     block.stmts.insert(0, mac_stmt("__vx_body", None));
 
+    for a in sig.inputs.iter_mut() {
+        if let FnArg::Typed(pt) = a {
+            if let Pat::Ident(pi) = &*pt.pat {
+                if req.mutparam.iter().any(|n| pi.ident == n) {
+                    if let Type::Reference(r) = &mut *pt.ty {
+                        if r.mutability.is_none() {
+                            r.mutability = Some(Default::default());
+                            *rw.counts.entry("R7.mut_param".to_string()).or_insert(0) += 1;
+                        }
+                    }
+                }
+            }
+        }
+    }
     if rw.wrote_lock || req.mutself {
         if let Some(FnArg::Receiver(r)) = sig.inputs.first_mut() {
             if r.reference.is_some() && r.mutability.is_none() {
